@@ -16,21 +16,22 @@ import (
 
 // WorkerConfig is what the driver hands to one worker process.
 type WorkerConfig struct {
-	Property  string   `json:"property"`
-	Tier      string   `json:"tier"`
-	Seed      uint64   `json:"seed"`    // VERIF_SEED
-	Worker    int      `json:"worker"`  // index of this worker
-	Workers   int      `json:"workers"` // number of workers
-	MaxRuns   int      `json:"max_runs"`
-	BudgetS   float64  `json:"budget_s"`
-	Out       string   `json:"out"`
-	Base      string   `json:"base"`       // tmpfs directory for sandboxes
-	ReplayDir string   `json:"replay_dir"` // where replay files are written
-	Replay    string   `json:"replay"`     // replay this file instead of exploring
-	Known     []string `json:"known"`      // signatures of known findings (reported, not fatal)
-	Recheck   int      `json:"recheck"`    // every n-th run is executed twice and the logs compared
-	LogHashes bool     `json:"log_hashes"` // emit per-run log hashes (determinism self-test)
-	Profiles  []string `json:"profiles"`   // restrict to these profiles
+	Property     string   `json:"property"`
+	Tier         string   `json:"tier"`
+	Seed         uint64   `json:"seed"`    // VERIF_SEED
+	Worker       int      `json:"worker"`  // index of this worker
+	Workers      int      `json:"workers"` // number of workers
+	MaxRuns      int      `json:"max_runs"`
+	BudgetS      float64  `json:"budget_s"`
+	Out          string   `json:"out"`
+	Base         string   `json:"base"`          // tmpfs directory for sandboxes
+	ReplayDir    string   `json:"replay_dir"`    // where replay files are written
+	Replay       string   `json:"replay"`        // replay this file instead of exploring
+	Known        []string `json:"known"`         // signatures of known findings (reported, not fatal)
+	Recheck      int      `json:"recheck"`       // every n-th run is executed twice and the logs compared
+	LogHashes    bool     `json:"log_hashes"`    // emit per-run log hashes (determinism self-test)
+	Profiles     []string `json:"profiles"`      // restrict to these profiles
+	ProfilesFrom string   `json:"profiles_from"` // use the workloads of another property (cross-checks)
 }
 
 // ViolationReport is one violation as reported to the driver.
@@ -144,6 +145,9 @@ func RunWorker(t *testing.T, cfg *WorkerConfig) *WorkerOutput {
 	}
 
 	profiles := Profiles[cfg.Property]
+	if cfg.ProfilesFrom != "" {
+		profiles = Profiles[cfg.ProfilesFrom]
+	}
 	if len(cfg.Profiles) > 0 {
 		var sel []Profile
 		for _, p := range profiles {
